@@ -24,6 +24,8 @@ struct Cfg {
 enum Prof {
     Dev,
     Prod,
+    /// a profile whose name contains a dot: the file is still `<name>.yml`
+    Dot,
 }
 impl std::str::FromStr for Prof {
     type Err = &'static str;
@@ -33,6 +35,8 @@ impl std::str::FromStr for Prof {
             Ok(Prof::Dev)
         } else if b.len() == 3 && b[0] == b'p' && b[1] == b'r' && b[2] == b'd' {
             Ok(Prof::Prod)
+        } else if b.len() == 3 && b[0] == b'p' && b[1] == b'.' && b[2] == b'q' {
+            Ok(Prof::Dot)
         } else {
             Err("unknown profile")
         }
@@ -51,6 +55,10 @@ impl AsRef<str> for Prof {
                 unsafe { LAST_PROFILE_ASKED = 2 };
                 "prd"
             }
+            Prof::Dot => {
+                unsafe { LAST_PROFILE_ASKED = 3 };
+                "p.q"
+            }
         }
     }
 }
@@ -61,7 +69,11 @@ impl ConfigProfile for Prof {}
 /// name the loader asked for last (its argument). What stays outside the claim is the literal
 /// ".yml" suffix / "{}" template of that one format string.
 fn fmt_stub(_a: std::fmt::Arguments<'_>) -> String {
-    if unsafe { LAST_PROFILE_ASKED } == 2 { String::from("prd.yml") } else { String::from("dev.yml") }
+    match unsafe { LAST_PROFILE_ASKED } {
+        2 => String::from("prd.yml"),
+        3 => String::from("p.q.yml"),
+        _ => String::from("dev.yml"),
+    }
 }
 
 /// The process environment: PX_PROFILE is absent, "dev", "prd" or something else ("zz").
@@ -84,6 +96,47 @@ fn absolute_stub<P: AsRef<std::path::Path>>(path: P) -> std::io::Result<std::pat
 }
 fn current_dir_stub() -> std::io::Result<std::path::PathBuf> {
     Ok(std::path::PathBuf::from("/w"))
+}
+/// `Path::with_extension` as std documents it ("replaces the extension, i.e. what follows the last
+/// dot of the file name, or appends one"), loop-free for the file names the harness uses (<= 4 bytes
+/// after the last '/'): std's own component parser runs CBMC out of memory.
+fn with_extension_stub<S: AsRef<std::ffi::OsStr>>(this: &std::path::Path, ext: S) -> std::path::PathBuf {
+    let b = this.as_os_str().as_encoded_bytes();
+    let n = b.len();
+    // position of the last '.' of the file name, not counting a leading dot: only the last four bytes can belong to it
+    let is_sep = |k: usize| k >= n || b[n - 1 - k] == b'/';
+    let is_dot = |k: usize| k < n && b[n - 1 - k] == b'.';
+    // k = distance from the end; a dot at distance k counts if no separator lies behind it and it is not the first byte of the name
+    let cut = if is_sep(0) {
+        n
+    } else if is_dot(0) && !is_sep(1) {
+        n - 1
+    } else if is_sep(1) {
+        n
+    } else if is_dot(1) && !is_sep(2) {
+        n - 2
+    } else if is_sep(2) {
+        n
+    } else if is_dot(2) && !is_sep(3) {
+        n - 3
+    } else {
+        n
+    };
+    let e = ext.as_ref().as_encoded_bytes();
+    let mut v: Vec<u8> = Vec::with_capacity(n + 1 + e.len());
+    v.extend_from_slice(&b[..cut]);
+    if !e.is_empty() {
+        v.push(b'.');
+        v.extend_from_slice(e);
+    }
+    std::path::PathBuf::from(unsafe { std::ffi::OsString::from_encoded_bytes_unchecked(v) })
+}
+fn set_extension_stub<S: AsRef<std::ffi::OsStr>>(this: &mut std::path::PathBuf, ext: S) -> bool {
+    let has_name = this.as_os_str().as_encoded_bytes().last().map_or(false, |c| *c != b'/');
+    if has_name {
+        *this = with_extension_stub(this.as_path(), ext);
+    }
+    has_name
 }
 
 /// Under Kani the stub above answers for the environment; in a native run (nd::search) stubs do
@@ -122,7 +175,7 @@ fn vtrace(_vals: &[[Option<u8>; 2]; 3], _explicit: Option<Prof>, _env: u8) {}
 #[cfg(test)]
 fn vtrace(vals: &[[Option<u8>; 2]; 3], explicit: Option<Prof>, env: u8) {
     let o = |v: Option<u8>| v.map(|n| n.to_string()).unwrap_or("null".to_string());
-    let p = |p: Option<Prof>| match p { Some(Prof::Dev) => "\"dev\"", Some(Prof::Prod) => "\"prd\"", None => "null" };
+    let p = |p: Option<Prof>| match p { Some(Prof::Dev) => "\"dev\"", Some(Prof::Prod) => "\"prd\"", Some(Prof::Dot) => "\"p.q\"", None => "null" };
     let e = ["null", "\"dev\"", "\"prd\"", "\"zz\""][env as usize];
     nd::trace(|| format!("{{\"kind\":\"c18\",\"values\":[[{},{}],[{},{}],[{},{}]],\"explicit_profile\":{},\"env_profile\":{}}}",
         o(vals[0][0]), o(vals[0][1]), o(vals[1][0]), o(vals[1][1]), o(vals[2][0]), o(vals[2][1]), p(explicit), e));
@@ -142,7 +195,10 @@ fn check_outcome(r: &Result<Cfg, crate::config::errors::ConfigLoadError>, vals: 
     unsafe {
         assert!(fv::ENV_PREFIX_OK, "the environment provider is not prefixed with PX_");
         assert!(fv::ENV_SPLIT_OK, "the nesting separator of the environment provider is not __");
-        assert!(fv::ENV_IGNORES_PROFILE, "PX_PROFILE is not excluded from the configuration keys");
+        use figment::providers::PROBE_ALIVE as alive;
+        assert!(!alive[0], "PX_PROFILE is not excluded from the configuration keys");
+        assert!(alive[1], "an ordinary PX_ variable is dropped by the environment provider");
+        assert!(alive[2] && alive[3] && alive[4], "a PX_ variable whose name merely starts like PX_PROFILE is dropped: only PX_PROFILE itself is reserved");
         assert!(fv::BASE_FILE_OK, "the base file is not <dir>/base.yml");
         assert!(fv::PROFILE_FILE_OK, "the profile file is not <dir>/<profile>.yml");
         assert!(fv::DIR_OK, "a configuration file was looked up outside the configured directory");
@@ -151,7 +207,7 @@ fn check_outcome(r: &Result<Cfg, crate::config::errors::ConfigLoadError>, vals: 
 
 // @tier quick
 // @obligation with an explicit profile (and PX_PROFILE absent, equal, different or invalid): the explicit profile selects the file; for every presence/value pattern of 2 keys over the 3 sources, each key is taken from the environment if present there, else the profile file, else the base file; a key defined nowhere makes load() fail; the environment provider gets prefix PX_, separator __ and ignores PROFILE; the files named are <dir>/base.yml and <dir>/<profile>.yml
-// @bounds 2 keys x 3 sources (presence and u8 value arbitrary); profiles {dev, prd}; configuration directory relative ("cf") or absolute ("/a")
+// @bounds 2 keys x 3 sources (presence and u8 value arbitrary); profiles {dev, prd, p.q}; environment probe variables PROFILE, K0, PROFILES_DIR, PROFILE__LABEL, PROFILER__ON; configuration directory relative ("cf") or absolute ("/a")
 // @functions ConfigLoader::new, ConfigLoader::profile, ConfigLoader::configuration_dir, ConfigLoader::load
 // @timeout 1800
 #[kani::proof]
@@ -160,17 +216,29 @@ fn check_outcome(r: &Result<Cfg, crate::config::errors::ConfigLoadError>, vals: 
 #[kani::stub(std::env::var, var_stub)]
 #[kani::stub(std::path::absolute, absolute_stub)]
 #[kani::stub(std::env::current_dir, current_dir_stub)]
+#[kani::stub(std::path::Path::with_extension, with_extension_stub)]
+#[kani::stub(std::path::PathBuf::set_extension, set_extension_stub)]
 fn c18_precedence_explicit_profile() {
     let vals = any_values();
     unsafe { fv::VALUES = vals };
-    let p = if nd::any_bool() { Prof::Dev } else { Prof::Prod };
+    let p = match nd::u8_below(3) {
+        0 => Prof::Dev,
+        1 => Prof::Prod,
+        _ => Prof::Dot,
+    };
     // whatever PX_PROFILE says, an explicit profile wins ("rather than loading it from PX_PROFILE")
     let e: u8 = nd::u8_below(4);
     set_env_profile(e);
     unsafe { LAST_PROFILE_ASKED = 0 };
     unsafe { fv::DIR_OK = true };
     vtrace(&vals, Some(p), e);
-    unsafe { fv::EXPECT_PROFILE_FILE = if p == Prof::Dev { *b"/dev.yml" } else { *b"/prd.yml" } };
+    unsafe {
+        fv::EXPECT_PROFILE_FILE = match p {
+            Prof::Dev => *b"/dev.yml",
+            Prof::Prod => *b"/prd.yml",
+            Prof::Dot => *b"/p.q.yml",
+        }
+    };
     // relative or absolute configuration directory
     let abs: bool = nd::any_bool();
     unsafe { fv::EXPECT_DIR = if abs { "/a" } else { "cf" } };
@@ -179,6 +247,7 @@ fn c18_precedence_explicit_profile() {
     kani::cover!(r.is_ok() && vals[2][0].is_some() && vals[1][0].is_some() && vals[0][0].is_some(), "all three sources define k0");
     kani::cover!(r.is_err(), "a key defined nowhere");
     kani::cover!(r.is_ok() && p == Prof::Dev && e == 2, "explicit dev although PX_PROFILE=prd");
+    kani::cover!(r.is_ok() && p == Prof::Dot, "a profile whose name contains a dot");
     std::mem::forget(r);
 }
 
@@ -193,6 +262,8 @@ fn c18_precedence_explicit_profile() {
 #[kani::stub(std::env::var, var_stub)]
 #[kani::stub(std::path::absolute, absolute_stub)]
 #[kani::stub(std::env::current_dir, current_dir_stub)]
+#[kani::stub(std::path::Path::with_extension, with_extension_stub)]
+#[kani::stub(std::path::PathBuf::set_extension, set_extension_stub)]
 fn c18_profile_from_environment() {
     let vals = any_values();
     unsafe { fv::VALUES = vals };
@@ -221,7 +292,6 @@ mod native_search {
         unsafe {
             fv::ENV_PREFIX_OK = false;
             fv::ENV_SPLIT_OK = false;
-            fv::ENV_IGNORES_PROFILE = false;
             fv::PROFILE_FILE_OK = false;
             fv::BASE_FILE_OK = false;
             fv::DIR_OK = true;
